@@ -88,6 +88,48 @@ def run(ctx, chk):
                "%s [%s] reports 'absent' for raw values %r; only the not-available code %d may be absent, also outside the %d-bit field" % (leaf, cfg, none_full, sent_raw, w),
                sample={"decoder": leaf, "absent_over_whole_type": repr(none_full)})
     chk.ob(nfull >= 5, "C11/helper-domain/floor/%d" % nfull, "only %d decoder functions evaluated over their whole argument type" % nfull)
+    # the rate of turn is exposed only through its accessors: over every value `RateOfTurn::parse`
+    # can produce (-127..127; -128 is the not-available code and gives no value at all) `rate()` is
+    # absent exactly for +/-127 ("no turn indicator") and `direction()` exactly for 0 ("not turning")
+    from ..interp import Interp, St, OPTION
+    from ..values import VAdt, VInt
+    from ..domains import Lin
+    from .. import xform
+    for cfg in cfgs:
+        f = ctx.facts(cfg)
+        nacc = 0
+        for meth, want in (("rate", IntSet.of(-127).union(IntSet.of(127))), ("direction", IntSet.of(0))):
+            bs = [b for b in f.bodies.values() if b["def"].endswith("::" + meth) and (b.get("impl_self") or "").endswith("RateOfTurn") and not b.get("impl_trait")]
+            chk.ob(len(bs) == 1, "C11/rot/%s/missing" % meth, "RateOfTurn::%s not found [%s]" % (meth, cfg))
+            if len(bs) != 1:
+                continue
+            b = bs[0]
+            I2 = Interp(f, xform.EXT)
+            st0 = St()
+            atom = ("sym", "self.raw", -127, 127)
+            selft = f.types[b["locals"][1]]
+            adt = selft["def"] if selft["k"] == "adt" else f.types[selft["ty"]]["def"]
+            selfv = VAdt(adt, 0, (VInt(8, True, lin=Lin.atom(atom)),))
+            if selft["k"] == "ref":
+                from ..values import VRef
+                selfv = VRef(I2.new_cell(st0, selfv), ())
+            try:
+                outs = I2.exec_fn(st0, b, [selfv])
+            except Exception as e:
+                chk.ob(False, "C11/rot/%s/unanalysable" % meth, "reason=unanalysable: RateOfTurn::%s [%s]: %r" % (meth, cfg, e))
+                continue
+            none_set, some_set = IntSet.empty(), IntSet.empty()
+            for st, rv in outs:
+                vals = st.aset(atom)
+                if isinstance(rv, VAdt) and rv.adt == OPTION and rv.variant == 0:
+                    none_set = none_set.union(vals)
+                else:
+                    some_set = some_set.union(vals)
+            nacc += 1
+            chk.ob(none_set == want and some_set == IntSet.range(-127, 127).minus(want), "C11/rot/%s/none=%s" % (meth, none_set),
+                   "RateOfTurn::%s [%s] is absent for raw %r and present for %r; expected absent exactly for %r" % (meth, cfg, none_set, some_set, want),
+                   sample={"accessor": "RateOfTurn::" + meth, "absent_for": repr(none_set)})
+        chk.ob(nacc == 2, "C11/rot/floor/%d" % nacc, "rate-of-turn accessors evaluated: %d [%s]" % (nacc, cfg))
     # inline sentinels (interrogation slot offset 0) are partitions of messages::parse itself
     for cfg in cfgs:
         I, outs = ctx.layouts(cfg)
